@@ -77,7 +77,7 @@ PROPS = {
                         "mint: the split of the block provision cannot fail when the two ratios (community pool / supply, stake-for-shield pool / supply) are non-negative and add up to at most one (C01m.split_ok_of_ratios, and split_panics_iff for the converse); both pools are coins held inside the supply, in different module accounts"],
     },
     "C09": {
-        "lean": ["Shentu.Props.C09", "Shentu.Props.C09q"],
+        "lean": ["Shentu.Props.C09", "Shentu.Props.C09q", "Shentu.Props.C09q2"],
         "engines": [chain("staking", 128, 1280, ops=150, tops=250), chain("shield", 128, 1280, ops=90, tops=160), chain("payout", 48, 480, ops=120, tops=200), UBDQ, EXPORT],
         "trusted": ["modelled, not verified: the Cosmos SDK staking keeper (power index, unbonding queues, slashing), baseapp, Tendermint; the model is the specification of what consensus must see, compared on every block with the updates the real application returns from EndBlock",
                     "the consensus view is accumulated by the harness from the EndBlock responses, starting from the bonded validators of genesis"],
@@ -101,7 +101,7 @@ PROPS = {
                         "the stored count of waiting blocks of a task is re-based to the remaining blocks on import"],
     },
     "C16": {
-        "lean": ["Shentu.Props.C16", "Shentu.Props.C16m"],
+        "lean": ["Shentu.Props.C16", "Shentu.Props.C16m", "Shentu.Props.C16m2"],
         "drivers": ["vmdriver", "chaindriver"],
         "engines": VM_ENGINES + [VM_ZEROLEN, BLOCKHASH],
         "trusted": VM_TRUST + ["Shentu.Gen.EVM is regenerated from vm/contract.go by the translator; the refinement theorems are stated about the regenerated definitions"],
